@@ -1055,10 +1055,11 @@ class Simplifier(pysmt.walkers.DagWalker):
                 # smtlib2 semantics of integer division:
                 # r > 0 : l / r == floor(float(l) / r)
                 # r < 0 : l / r == ceil(float(l) / r)
+                # (computed on integers: floats lose precision above 2**53)
                 if r > 0:
-                    return self.manager.Int(math.floor(float(l) / r))
+                    return self.manager.Int(l // r)
                 if r < 0:
-                    return self.manager.Int(math.ceil(float(l) / r))
+                    return self.manager.Int(-(l // -r))
 
         if sl.is_constant():
             if sl.is_zero():
